@@ -166,6 +166,13 @@ inline void generatePki(const std::string &dir)
   { Spec s = srv; s.cn = "evil.example"; s.san = "DNS:evil.example"; leaf("srv-wrongname", s, cA, kA); }
   { Spec s = srv; s.notBeforeS = -2 * D; s.notAfterS = -1 * D; leaf("srv-expired", s, cA, kA); }
   { Spec s = srv; s.notBeforeS = 1 * D; s.notAfterS = 2 * D; leaf("srv-notyet", s, cA, kA); }
+  // name-matching family (all issued by A, valid now): what the certificate is issued FOR
+  { Spec s = srv; s.cn = "vf-c07 wild"; s.san = "DNS:*.example.test"; leaf("srv-wild", s, cA, kA); }              // one-label wildcard
+  { Spec s = srv; s.cn = "vf-c07 exact"; s.san = "DNS:api.example.test"; leaf("srv-exact", s, cA, kA); }           // exact name
+  { Spec s = srv; s.cn = "vf-c07 partial"; s.san = "DNS:a*.example.test"; leaf("srv-partial", s, cA, kA); }        // partial wildcard
+  { Spec s = srv; s.cn = "vf-c07 midwild"; s.san = "DNS:www.*.example.test"; leaf("srv-midwild", s, cA, kA); }     // wildcard not in the leftmost label
+  { Spec s = srv; s.cn = "vf-c07 iponly"; s.san = "IP:127.0.0.1"; leaf("srv-iponly", s, cA, kA); }                 // iPAddress SAN only
+  { Spec s = srv; s.cn = "api.example.test"; s.san = ""; leaf("srv-cnonly", s, cA, kA); }                          // no SAN at all, name in the CN
   leaf("srv-selfsigned", srv, nullptr, nullptr);
   leaf("srv-wrongca", srv, cB, kB);
   leaf("srv-forged", srv, cF, kF);
